@@ -227,11 +227,12 @@ func init() {
 		Technique: "typestate over condition variables on SSA (predicate write => Broadcast; Broadcast holds the cond's locker), path rules on the cooldown closures, who-may-call audit of the cooldown timer",
 		Explanation: "every write to a predicate field of Buffer.cond (consumers, buffer, offset) in Put, NewConsumer, delete, commit, cleanupLogic is followed by a Broadcast (not Signal) before the lock is released; every Broadcast on Buffer.cond holds Buffer.mutex, including the cooldown timer's re-broadcast (the defect repaired by f449357); " +
 			"cooldown protocol: every exit of the cleanup closure either ran cleanupLogic or set the broadcast flag, arming the timer always starts the timer goroutine, whose deferred exit clears the timer on every path and re-broadcasts iff the flag is set; the timer is never re-armed; the cooldown cells share one lock; the cleaner goroutine is started where cond is created, its predicate never returns true, and it uses the configured cooldown.",
-		NotDecided: "the delay bound itself (time); FixedBufferCleaner's quiescent size.",
+		NotDecided: "the delay bound itself (time); FixedBufferCleaner's quiescent size as a number (decided: the forced trim size - target iff size > max, handed out for every configuration, consulted on every pass, and a pass that removed something is followed by another).",
 		Build: func(c *Ctx) []*an.Oblig {
 			cooldownProtocol(c)
 			cleanerAlwaysConsulted(c)
 			cleanupLogic(c) // what a pass removes, and that a pass which reports a change has made progress
+			fixedBufferCleaner(c) // the forced trim that bounds a quiescent buffer by max
 			out := c.sel(func(o *an.Oblig) bool {
 				if isUndecided(o) || o.Rule == "ANCHOR" {
 					return true
